@@ -12,6 +12,7 @@ import (
 	"io"
 	"os"
 	"path/filepath"
+	"strings"
 )
 
 // A Ruleset is the result of reading, parsing, and compiling a
@@ -96,7 +97,11 @@ func (r *Ruleset) Excludes(path string) (ExcludesResult, error) {
 		}
 		if match {
 			foundMatch = !rule.negated
-			dominating = foundMatch && !rule.negationsAfter
+			// A match dominates everything below a directory only if the
+			// rule itself covers whole subtrees (it ends in "**"): a rule
+			// such as "dir/*" matches "dir/" and its direct children but
+			// not "dir/sub/file", which must still be visited.
+			dominating = foundMatch && !rule.negationsAfter && strings.HasSuffix(rule.val, "**")
 		}
 	}
 	return ExcludesResult{
